@@ -149,6 +149,7 @@ def run(chk, facts, tier, only=None):
 
     def r6():
         de_rules.rule_unrolled(chk, facts)
+        de_rules.rule_raw_field_tests(chk, facts)
 
     def shared_rules():
         import c05, c07
